@@ -42,6 +42,35 @@ func init() {
 		"`wipeout keys`. Plus the rotation killed after CreateCryptoKeyVersion. Non-trivial: at least two steps, one succeeded command.", runC12Kms)
 }
 
+// c12Cmd.gen < 0: CreateCryptoKeyVersion creates versions directly in a state (no generation phase) and its
+// response says so; version 1 of a new cryptoKey (CreateCryptoKey) still goes through generation (countdown 0)
+const (
+	c12GenEnabled  = -1 // created ENABLED
+	c12GenDisabled = -2 // created DISABLED
+)
+
+// c12KmsEnv is the Cloud KMS environment of one command.
+func c12KmsEnv(c c12Cmd) k10Env {
+	switch c.gen {
+	case c12GenEnabled:
+		return k10Env{deadline: c.dl, created: ksEnabled}
+	case c12GenDisabled:
+		return k10Env{deadline: c.dl, created: ksDisabled}
+	}
+	return k10Env{gen: c.gen, deadline: c.dl}
+}
+
+// genField is the <gen> slot of the model's command: a countdown, or the created state.
+func (c c12Cmd) genField() string {
+	switch c.gen {
+	case c12GenEnabled:
+		return "cE"
+	case c12GenDisabled:
+		return "cD"
+	}
+	return strconv.Itoa(c.gen)
+}
+
 type c12Kms struct {
 	svc  *k10Svc
 	st   c12Mock
@@ -117,7 +146,7 @@ func (s *c12Kms) exec(c c12Cmd) (bool, string) {
 	// a fresh client, manager, signer and authority per command, as a new process would have
 	base, cancel := context.WithCancel(context.Background())
 	defer cancel()
-	cl := &k10Client{svc: s.svc, rng: s.rng, env: k10Env{gen: c.gen, deadline: c.dl}, cancel: cancel}
+	cl := &k10Client{svc: s.svc, rng: s.rng, env: c12KmsEnv(c), cancel: cancel}
 	return c12RunIn(s.ctxOn(base, c, cl), c)
 }
 
@@ -173,13 +202,13 @@ func (c c12Cmd) encK() string {
 	fl := b2s(c.ow) + b2s(c.kg)
 	switch c.kind {
 	case 'b':
-		return fmt.Sprintf("b:%s:%s:%s:%s:%s:%d:%d:%s:%s%s", fl, c.rootCn, c.signCn, c.rootSerial, c.signSerial, c.now, c.gen, b2s(c.dl), b2s(c.wr), b2s(c.ws))
+		return fmt.Sprintf("b:%s:%s:%s:%s:%s:%d:%s:%s:%s%s", fl, c.rootCn, c.signCn, c.rootSerial, c.signSerial, c.now, c.genField(), b2s(c.dl), b2s(c.wr), b2s(c.ws))
 	case 'r':
 		ser := "0"
 		if c.signSerial != nil {
 			ser = c.signSerial.String()
 		}
-		return fmt.Sprintf("r:%s:%s:%s:%d:%d:%s", fl, c.signCn, ser, c.now, c.gen, b2s(c.dl))
+		return fmt.Sprintf("r:%s:%s:%s:%d:%s:%s", fl, c.signCn, ser, c.now, c.genField(), b2s(c.dl))
 	case 'x':
 		if c.ext == "disable" {
 			return fmt.Sprintf("x:disable:%s:%d", c.extKey, c.extIdx)
@@ -220,9 +249,12 @@ func (s *c12Kms) oracle(c c12Cmd, ok bool, prev, cur *c12Obs, find func(sig, wha
 	case 'b':
 		counts["kms/bootstrap/root-key="+s.rootClass]++
 		counts["kms/bootstrap/signing-key="+s.signClass]++
-		counts[fmt.Sprintf("kms/env/bootstrap/gen=%d,deadline=%s", c.gen, b2s(c.dl))]++
+		counts[fmt.Sprintf("kms/env/bootstrap/gen=%s,deadline=%s", c.genField(), b2s(c.dl))]++
+		if s.rootClass == "none-usable" || s.signClass == "none-usable" {
+			counts["kms/bootstrap/create-version-path/gen="+c.genField()]++ // waitForKeyGen: ErrNoKeyVersions -> CreateCryptoKeyVersion
+		}
 	case 'r':
-		counts[fmt.Sprintf("kms/env/rotate/gen=%d,deadline=%s", c.gen, b2s(c.dl))]++
+		counts[fmt.Sprintf("kms/env/rotate/gen=%s,deadline=%s", c.genField(), b2s(c.dl))]++
 	case 'x':
 		counts["kms/ext/"+c.ext]++
 	}
@@ -341,6 +373,10 @@ func c12GenHistoryK(r *Rng) []c12Cmd {
 				c.gen, c.dl = 1+r.Intn(2), true
 			case k < 15 && !slept && c.kind == 'r':
 				c.gen, slept = 1, true // one real 5 s wait per history at most
+			case k < 27:
+				c.gen = c12GenEnabled
+			case k < 33:
+				c.gen = c12GenDisabled
 			}
 		}
 		h = append(h, c)
@@ -397,6 +433,15 @@ func c12FixedK() [][]c12Cmd {
 			r(false, false, "signA", 0, t0+2*day, 0, false), w(false, true), x("expire", "", 0)},
 		// C12-K7: bootstrap; wipeout keys; bootstrap --keep_going
 		{b(false, false, "rootA", "signA", 1, 2, t0, 0, false), w(false, true), b(false, true, "rootA", "signA", 7, 8, t0+day, 0, false), r(false, false, "signA", 0, t0+2*day, 0, false)},
+		// versions created without a generation phase: a rotation whose new version is ENABLED at once; one whose new
+		// version is created DISABLED (the poll refuses it; the leftover is destroyed by the wipeout); bootstrap
+		// --keep_going over cryptoKeys without a usable version: waitForKeyGen creates versions and returns at once
+		// when the response says ENABLED (no poll), polls and fails when it says DISABLED; then the retry
+		{b(false, false, "rootA", "signA", 1, 2, t0, 0, false), r(false, false, "signA", 0, t0+day, c12GenEnabled, false), r(false, false, "signA", 0, t0+2*day, c12GenDisabled, false),
+			w(false, true), b(false, true, "rootA", "signA", 7, 8, t0+3*day, c12GenDisabled, false), b(false, true, "rootA", "signA", 7, 8, t0+4*day, c12GenEnabled, false),
+			r(false, false, "signA", 0, t0+5*day, c12GenEnabled, false)},
+		{b(false, false, "rootA", "signA", 1, 2, t0, 0, false), w(false, true), b(false, true, "rootA", "signA", 7, 8, t0+day, c12GenEnabled, true),
+			r(false, false, "signA", 0, t0+2*day, c12GenDisabled, true), r(false, false, "signA", 0, t0+3*day, 0, false)},
 		// a failed bootstrap whose two uploads behave differently (the root certificate is new, the signing certificate's
 		// object is recorded for version 1): what stays behind depends on the order of gcsca.Finalize's map
 		{b(false, false, "rootA", "signA", 1, 2, t0, 0, false), w(false, true), b(false, true, "rootA", "signA", 9, 2, t0+day, 0, false),
